@@ -167,3 +167,13 @@ _ext("C05", "Since session 5 the table has 87 step-level entries: tenmat (constr
      "conj, arithmetic), sptenmat, ttensor (dense or sparse core), sumtensor (any list of parts), and the remaining ktensor methods are "
      "modelled step by step through a compositional analysis (programs calling programs, C05_static_compositional / C05_call_pureFresh) "
      "instead of the generic 'computed into new arrays' entry (51 theorems)")
+_ext("C12", "Since session 5: the handle translator reads the realistic rewrites of handles.py / fg_setup.py (np.where / conditional expressions, "
+     "comparisons in either orientation, maximum / minimum / clip, log1p, sqrt, inlined helpers, partial / lambda bindings; 19 harmless and 6 "
+     "harmful rewrites in tools/handles_rewrites_selftest.py) and the per-pair derivative proofs close by normalisation instead of matching the "
+     "pinned syntax; new theorems: the sampled estimator with ARBITRARY sample weights and repeats (C12_estimate_weighted), the crng correction "
+     "of the semi-stratified sampler (C12_estimate_crng), gradients = partial derivatives of the returned sampled objective, evaluate with a 0/1 "
+     "mask = the loss over the unmasked entries (33 theorems)")
+for _p in ("C09", "C10", "C11"):
+    _ext(_p, "Since session 5 the formula translator finds its anchors through the data flow (harness/translate/flow.py: symbolic execution of the "
+         "function body, helpers inlined, roles instead of variable names), so helper extraction / renamed locals are read as the pinned "
+         "definitions while every seeded harmful change at an anchor is read as different or lost (tools/translator_selftest.py)")
